@@ -28,7 +28,9 @@ def rule_term(rng, doc, cast=None, force_pathlike=False):
     p = c10.rand_path(rng, doc, rng.choice([2, 3, 5]))
     sel = M.walk(p, doc)
     nodes = [x for _, x in sel] if sel is not M.SKIP else []
-    if rng.random() < 0.3:
+    if rng.random() < 0.1:
+        cond = {"c": "null"}  # e.g. a cast-only rule
+    elif rng.random() < 0.3:
         cond, _ = c11.frag_leaf(rng, doc, nodes or [1], kind="value")
     else:
         def tree(n):
